@@ -36,6 +36,9 @@ pub enum Mutation {
     OuterTag(u8),
     /// replace the controls element by a malformed one
     BadControls(u8),
+    /// message id content := prefix ++ zeros x 0x00 ++ original content (over-long ids whose low
+    /// octets alias a valid id under a folding / truncating integer reader)
+    WideMsgId { prefix: Vec<u8>, zeros: u8 },
 }
 
 fn mutation() -> BoxedStrategy<Mutation> {
@@ -55,6 +58,7 @@ fn mutation() -> BoxedStrategy<Mutation> {
         1 => any::<u16>().prop_map(Mutation::Truncate),
         1 => (0u8..6).prop_map(Mutation::OuterTag),
         3 => (0u8..12).prop_map(Mutation::BadControls),
+        3 => (vec(prop_oneof![Just(0u8), Just(1u8), Just(0x7fu8), Just(0x80u8), Just(0xffu8), any::<u8>()], 1..6), 0u8..9).prop_map(|(prefix, zeros)| Mutation::WideMsgId { prefix, zeros }),
     ]
     .boxed()
 }
@@ -232,6 +236,16 @@ pub fn apply(msg: &RespMsg, m: &Mutation) -> Vec<u8> {
                     nd.body = Body::Prim(vec![0x01; *len as usize]);
                 }
             });
+        }
+        Mutation::WideMsgId { prefix, zeros } => {
+            if let Body::Cons(kids) = &mut t.body {
+                if let Some(Tlv { body: Body::Prim(p), .. }) = kids.first_mut() {
+                    let mut v = prefix.clone();
+                    v.extend(std::iter::repeat(0u8).take(*zeros as usize));
+                    v.extend_from_slice(p);
+                    *p = v;
+                }
+            }
         }
         Mutation::AppendToEnvelope(k) | Mutation::PrependToEnvelope(k) => {
             let (class, tag, cons) = EXTRA[*k as usize % EXTRA.len()];
@@ -418,6 +432,9 @@ pub struct DrvCase {
     warmup: u8,
     hostile: Hostile,
     sched: u64,
+    /// well-formed frames written in the same burst (same read) directly before the hostile bytes
+    #[serde(default)]
+    glued: u8,
 }
 
 fn drv_strat(_: &Ctx) -> BoxedStrategy<DrvCase> {
@@ -428,7 +445,7 @@ fn drv_strat(_: &Ctx) -> BoxedStrategy<DrvCase> {
         5 => (0u8..4, proptest::sample::select(&[1u8, 4, 5, 7, 9, 11, 13, 15, 19, 24, 25, 0, 2, 3, 30][..]), any::<bool>()).prop_map(|(target, app, empty)| Hostile::WrongType { target, app, empty }),
         2 => proptest::sample::select(&["3000", "300102", "3003020101", "30050201016500", "30050201016100", "300502010161 7f", "30 0c 00 00 00 00 00 00 00 00 00 00 00 00", "0403616263", "3005020101a000"][..]).prop_map(|h| Hostile::Raw { hex: h.replace(' ', "") }),
     ];
-    (pend, 0u8..3, hostile, any::<u64>()).prop_map(|(pending, warmup, hostile, sched)| DrvCase { pending, warmup, hostile, sched }).boxed()
+    (pend, 0u8..3, hostile, any::<u64>(), prop_oneof![2 => Just(0u8), 2 => 1u8..4]).prop_map(|(pending, warmup, hostile, sched, glued)| DrvCase { pending, warmup, hostile, sched, glued }).boxed()
 }
 
 #[derive(Debug)]
@@ -534,7 +551,18 @@ fn run_driver(c: &DrvCase) -> SimResult<DrvOut> {
                 ber::encode(&Tlv::seq(vec![Tlv::int(id), Tlv::cons(1, *app, body)]))
             }
         };
-        wire.push(&hostile);
+        // one burst: `glued` well-formed frames (entries of a pending search, else responses to an
+        // id nobody waits for) followed by the hostile bytes, all available to a single read
+        let mut burst = Vec::new();
+        for g in 0..c.glued {
+            let f = match c.pending.iter().position(|p| p.is_none()) {
+                Some(i) => RespMsg::new(ids[i].unwrap_or(1), Resp::Entry(Entry::simple(&format!("cn=g{}", g)))),
+                None => RespMsg::new(0x7000_0000 + g as i64, Resp::result(7, Res::ok("late"))),
+            };
+            burst.extend_from_slice(&f.encode());
+        }
+        burst.extend_from_slice(&hostile);
+        wire.push(&burst);
         quiesce().await;
         // whatever happened, the server now closes the connection
         wire.end_read(ReadEnd::Eof);
@@ -788,7 +816,7 @@ pub fn property() -> Property {
     Property {
         id: "C11",
         level: "exploration",
-        rule: "lanes: decoder (a valid response message of any kind with exactly one mutation from the catalogue of DESIGN.md Appendix D - element deleted/duplicated/swapped, tag class/number/P-C changed, primitive emptied, over-long INTEGER, extra envelope element incl. the AD-style [10] trailer, any one TLV length falsified by +-delta (truncated/inflated inner lengths), byte set, truncation, outer tag changed, 12 malformed control lists - plus random bytes behind a plausible outer header and raw random bytes; oracle under catch_unwind: never a panic; if the octets announced by the outer length are all present the decoder must not answer 'need more'; a delivered frame consumes exactly the outer frame; input that is definitely not an envelope is never delivered); driver (the same delivered while 1-3 operations are pending on the simulated connection, incl. every response type under a live single or search id or under message id 0 (unsolicited notifications), with and without elements; oracle: driver neither panics nor wedges (virtual watchdog), drive() returns, and for definite non-envelopes it returns an error that every pending operation observes); stack (child process, 2 MiB thread stack: frames with log-uniform 1..~250 000 nested constructed elements up to 1 MiB placed as envelope / protocolOp / controls; death by signal is the violation). Non-trivial: exactly one mutation away from a valid message, or random bytes starting with a plausible outer header; every driver and stack case. Distinct = hash of the bytes.",
+        rule: "lanes: decoder (a valid response message of any kind with exactly one mutation from the catalogue of DESIGN.md Appendix D - element deleted/duplicated/swapped, tag class/number/P-C changed, primitive emptied, over-long INTEGER, message id widened to 5-17 octets whose low octets still spell the original id, extra envelope element incl. the AD-style [10] trailer, any one TLV length falsified by +-delta (truncated/inflated inner lengths), byte set, truncation, outer tag changed, 12 malformed control lists - plus random bytes behind a plausible outer header and raw random bytes; oracle under catch_unwind: never a panic; if the octets announced by the outer length are all present the decoder must not answer 'need more'; a delivered frame consumes exactly the outer frame; input that is definitely not an envelope is never delivered); driver (the same delivered while 1-3 operations are pending on the simulated connection, incl. every response type under a live single or search id or under message id 0 (unsolicited notifications), with and without elements, alone or in the same read directly behind 1-3 well-formed frames; oracle: driver neither panics nor wedges (virtual watchdog), drive() returns, and for definite non-envelopes it returns an error that every pending operation observes); stack (child process, 2 MiB thread stack: frames with log-uniform 1..~250 000 nested constructed elements up to 1 MiB placed as envelope / protocolOp / controls; death by signal is the violation). Non-trivial: exactly one mutation away from a valid message, or random bytes starting with a plausible outer header; every driver and stack case. Distinct = hash of the bytes.",
         assumptions: &[
             "harness classification of 'definitely not an envelope': outer TLV not a universal constructed SEQUENCE, fewer than two elements, first element not a 1-4 octet non-negative universal INTEGER, or inner lengths that overrun the outer frame",
             "a panic in the caller's task while converting a well-enveloped but ill-formed result is outside the statement (driver and envelope) and only labelled",
